@@ -452,6 +452,19 @@ func runC09Tick(k c09TickCase) (c09TickObs, error) {
 			o.tick = false
 		}
 	}
+	// a call made after the trigger (its own context is already over): it has to come back as well.  It shares the
+	// watchdog of the operation under test.
+	lctx := &c09TickCtx{done: make(chan struct{})}
+	lctx.fire(context.Canceled)
+	late := make(chan error, 1)
+	go func() {
+		defer func() {
+			if r := recover(); r != nil {
+				late <- fmt.Errorf("panic: %v", r)
+			}
+		}()
+		late <- c.ping(lctx)
+	}()
 	wd := c09After(c09Watchdog)
 	tk := time.NewTicker(500 * time.Microsecond)
 	defer tk.Stop()
@@ -463,6 +476,11 @@ wait:
 			o.ret, o.err = true, c09ErrClass(errR)
 			break wait
 		case <-wd:
+			select {
+			case errR := <-res:
+				o.ret, o.err = true, c09ErrClass(errR)
+			default:
+			}
 			break wait
 		case <-tk.C:
 			if k.trig == 4 { // control: a well-behaved peer answers everything outstanding (both copies)
@@ -476,18 +494,6 @@ wait:
 			}
 		}
 	}
-	// a call made afterwards (its context is already over): it has to come back as well
-	lctx := &c09TickCtx{done: make(chan struct{})}
-	lctx.fire(context.Canceled)
-	late := make(chan error, 1)
-	go func() {
-		defer func() {
-			if r := recover(); r != nil {
-				late <- fmt.Errorf("panic: %v", r)
-			}
-		}()
-		late <- c.ping(lctx)
-	}()
-	_, o.late = c09ErrWithin(late, c09After(c09Watchdog))
+	_, o.late = c09ErrWithin(late, wd)
 	return o, nil
 }
